@@ -262,7 +262,7 @@ func c06BinaryItem(bin, in string) (sig, detail string) {
 	pr := impl.Parse(in, impl.ParseFuel(len(in)))
 	out, err := runCalc(bin, "", "-eval", in)
 	if err != nil {
-		return "harness:cannot-run-binary", err.Error()
+		return binarySig(err, "-eval"), fmt.Sprintf("calc -eval %q: %v", in, err)
 	}
 	if strings.Contains(out, "panic:") || strings.Contains(out, "fatal error:") {
 		return "binary-abort:-eval", fmt.Sprintf("calc -eval %q aborted: %q", in, clipStr(out, 400))
@@ -295,7 +295,20 @@ func ensureCalcBinary() string {
 	return bin
 }
 
-// runCalc runs the built binary with a generous safety timeout (never a verdict).
+// errBinaryStuck: the built binary was still running after 120 s on an input the in-process run finishes in
+// milliseconds within its instruction fuel.
+var errBinaryStuck = fmt.Errorf("calc binary did not finish within 120 s")
+
+// binarySig names the failure of a run of the built binary: not finishing is a failure of the item, anything else
+// (cannot start, cannot write the script) is the harness's problem.
+func binarySig(err error, mode string) string {
+	if err == errBinaryStuck {
+		return "binary-does-not-finish:" + mode
+	}
+	return "harness:cannot-run-binary"
+}
+
+// runCalc runs the built binary; a run that is still going after 120 s is killed (errBinaryStuck).
 func runCalc(bin, stdin string, args ...string) (string, error) {
 	cmd := exec.Command(bin, args...)
 	cmd.Stdin = strings.NewReader(stdin)
@@ -305,10 +318,10 @@ func runCalc(bin, stdin string, args ...string) (string, error) {
 	go func() { out, err = cmd.CombinedOutput(); close(done) }()
 	select {
 	case <-done:
-	case <-time.After(60 * time.Second):
+	case <-time.After(120 * time.Second):
 		cmd.Process.Kill()
 		<-done
-		return string(out), fmt.Errorf("calc binary did not finish within the 60 s safety net")
+		return string(out), errBinaryStuck
 	}
 	if _, ok := err.(*exec.ExitError); ok {
 		err = nil
